@@ -18,11 +18,14 @@ import (
 	"flag"
 	"fmt"
 	"go/ast"
+	"go/importer"
 	"go/parser"
 	"go/printer"
 	"go/token"
+	"go/types"
 	"math/rand"
 	"os"
+	"path/filepath"
 	"reflect"
 	"sort"
 	"strings"
@@ -196,6 +199,7 @@ func directLevel(enc *json.Encoder, rng *rand.Rand, n int) {
 	sb.WriteString("}\n\nvar _ = q(x, 1 +  2)") // no trailing newline: the last call ends exactly at EOF
 	src := []byte(sb.String())
 	fset := token.NewFileSet()
+	fset.AddFile("pad.go", -1, 4321) // the file under test is not the first of its FileSet: token.Pos != offset + 1
 	file, err := parser.ParseFile(fset, "direct.go", src, parser.ParseComments)
 	if err != nil {
 		fmt.Fprintln(os.Stderr, "direct parse:", err)
@@ -328,6 +332,7 @@ type site struct {
 	group, alt int
 	from, to   int
 	args       []argSite
+	fn         string // name of the enclosing function declaration, "" at top level
 }
 
 type groupSpec struct {
@@ -356,15 +361,20 @@ type engineObs struct {
 	Missing  bool      `json:"missing"` // the site produced no report
 	Extra    int       `json:"extra"`   // further reports at the same site
 	// observed
-	OMsg      []byte `json:"o_msg"`
-	OPos      int    `json:"o_pos"`
-	OEnd      int    `json:"o_end"`
-	OHasSugg  bool   `json:"o_has_sugg"`
-	OSuggFrom int    `json:"o_sugg_from"`
-	OSuggTo   int    `json:"o_sugg_to"`
-	OSugg     []byte `json:"o_sugg"`
-	OLine     int    `json:"o_line"`
-	OGroup    string `json:"o_group"`
+	OMsg      []byte   `json:"o_msg"`
+	OPos      int      `json:"o_pos"`
+	OEnd      int      `json:"o_end"`
+	OHasSugg  bool     `json:"o_has_sugg"`
+	OSuggFrom int      `json:"o_sugg_from"`
+	OSuggTo   int      `json:"o_sugg_to"`
+	OSugg     []byte   `json:"o_sugg"`
+	OLine     int      `json:"o_line"`
+	OGroup    string   `json:"o_group"`
+	OFunc     string   `json:"o_func"` // ReportData.Func: name of the function declaration, "" = nil
+	OFile     string   `json:"o_file"` // file the reported node lies in
+	WFunc     string   `json:"w_func"`
+	WFuncs    []string `json:"w_funcs,omitempty"` // comment rules: the values ReportData.Func may have
+	WFile     string   `json:"w_file"`
 	// expected (specification)
 	WMsg     []byte `json:"w_msg"`
 	WPos     int    `json:"w_pos"`
@@ -507,12 +517,13 @@ func engineLevel(enc *json.Encoder, tmp string, rng *rand.Rand, ngroups int) {
 			fmt.Fprintf(&tb, "func p%d_%d(args ...interface{}) int { return 0 }\n", gi, alt)
 		}
 	}
-	tb.WriteString("\n// alpha-1 here\n/* x beta-22 y */\n\nfunc g() {\n")
+	tb.WriteString("\n// alpha-1 here\n/* x beta-22 y */\n\n")
 	var sites []site
+	curFn := ""
 	emitSite := func(gi, alt int, prefix string) {
 		g := groups[gi]
 		tb.WriteString(prefix)
-		s := site{group: gi, alt: alt, from: tb.Len()}
+		s := site{group: gi, alt: alt, from: tb.Len(), fn: curFn}
 		fmt.Fprintf(&tb, "p%d_%d(", gi, alt)
 		nargs := len(g.names)
 		if g.variadic {
@@ -532,15 +543,36 @@ func engineLevel(enc *json.Encoder, tmp string, rng *rand.Rand, ngroups int) {
 		s.to = tb.Len()
 		sites = append(sites, s)
 	}
+	// the sites are spread over several function declarations, with a top-level site between two functions: the function a
+	// report names must be the one around ITS node, not the one of an earlier report
+	nfn, count := 0, 0
 	for gi, g := range groups {
 		for alt := 0; alt < g.alts; alt++ {
 			for k := 0; k < 2; k++ {
-				emitSite(gi, alt, "\t_ = ")
-				tb.WriteString("\n")
+				if count%7 == 6 {
+					if curFn != "" {
+						tb.WriteString("}\n\n")
+						curFn = ""
+					}
+					emitSite(gi, alt, "var _ = ")
+					tb.WriteString("\n\n")
+				} else {
+					if curFn == "" {
+						curFn = fmt.Sprintf("fn%d", nfn)
+						nfn++
+						fmt.Fprintf(&tb, "func %s() {\n", curFn)
+					}
+					emitSite(gi, alt, "\t_ = ")
+					tb.WriteString("\n")
+				}
+				count++
 			}
 		}
 	}
-	tb.WriteString("}\n\n")
+	if curFn != "" {
+		tb.WriteString("}\n\n")
+		curFn = ""
+	}
 	// the last site ends exactly at EOF (no trailing newline); its last argument too, up to the closing parenthesis
 	last := 0
 	for gi, g := range groups {
@@ -551,39 +583,130 @@ func engineLevel(enc *json.Encoder, tmp string, rng *rand.Rand, ngroups int) {
 	emitSite(last, 0, "var _ = ")
 	src := []byte(tb.String())
 
-	t, err := hutil.CheckTarget(tmp, "c03/target.go", src)
-	if err != nil {
-		fmt.Fprintln(os.Stderr, "target:", err)
-		fmt.Fprintln(os.Stderr, string(src))
-		os.Exit(3)
+	// one FileSet for all files; the target is not its first file (its base is > 1)
+	fset := token.NewFileSet()
+	checkIn := func(name string, text []byte) *hutil.Target {
+		path := filepath.Join(tmp, name)
+		if err := os.MkdirAll(filepath.Dir(path), 0o755); err != nil {
+			fmt.Fprintln(os.Stderr, "target:", err)
+			os.Exit(3)
+		}
+		if err := os.WriteFile(path, text, 0o644); err != nil {
+			fmt.Fprintln(os.Stderr, "target:", err)
+			os.Exit(3)
+		}
+		f, err := parser.ParseFile(fset, path, text, parser.ParseComments)
+		if err != nil {
+			fmt.Fprintln(os.Stderr, "target:", name, err)
+			fmt.Fprintln(os.Stderr, string(text))
+			os.Exit(3)
+		}
+		info := hutil.NewInfo()
+		conf := types.Config{Importer: importer.ForCompiler(fset, "source", nil), Error: func(error) {}}
+		pkg, err := conf.Check(f.Name.Name, fset, []*ast.File{f}, info)
+		if err != nil {
+			fmt.Fprintln(os.Stderr, "typecheck:", name, err)
+			os.Exit(3)
+		}
+		return &hutil.Target{Fset: fset, File: f, Info: info, Pkg: pkg, Src: text, Path: path}
 	}
-	e, err := hutil.LoadEngine(t.Fset, map[string]string{"rules.go": rb.String()}, []string{"rules.go"})
+	origPrint, _ := printNoComments(src)
+	// a different file with the same functions is run through the same engine and the same runner state before every run
+	// of the target: texts must come from the file at hand, never from bytes or offsets remembered from another file
+	other := []byte(strings.Replace(targetPrelude, "package target", "package target // zzzzzzzzzzzzzzzzzzzzzzzzzzzzzzzzzzzzzzzzzzzz", 1) +
+		string(src[len(targetPrelude):]))
+	other = []byte(strings.ReplaceAll(string(other), "1 +  2", "3 +   4"))
+	t2 := checkIn("c03other/target.go", other)
+	t := checkIn("c03/target.go", src)
+	// a third file whose LAST syntax-rule report sits inside a function and is followed by comment-rule reports
+	var tailArgs []string
+	for k := range groups[0].names {
+		tailArgs = append(tailArgs, fmt.Sprint(k+1))
+	}
+	tailSrc := "package target\n\nfunc p0_0(args ...interface{}) int { return 0 }\n\n// alpha-5 top\n\nfunc k() int {\n\treturn p0_0(" +
+		strings.Join(tailArgs, ", ") + ") // beta-6 inside k\n}\n"
+	t3 := checkIn("c03tail/target.go", []byte(tailSrc))
+	e, err := hutil.LoadEngine(fset, map[string]string{"rules.go": rb.String()}, []string{"rules.go"})
 	if err != nil {
 		fmt.Fprintln(os.Stderr, "load:", err)
 		fmt.Fprintln(os.Stderr, rb.String())
 		os.Exit(3)
 	}
-	origPrint, _ := printNoComments(src)
-	// a different file with the same functions is run through the same engine before every run of the target: texts
-	// must come from the file at hand, never from bytes or offsets remembered from another file
-	other := []byte(strings.Replace(targetPrelude, "package target", "package target // zzzzzzzzzzzzzzzzzzzzzzzzzzzzzzzzzzzzzzzzzzzz", 1) +
-		string(src[len(targetPrelude):]))
-	other = []byte(strings.ReplaceAll(string(other), "1 +  2", "3 +   4"))
-	t2, err := hutil.CheckTarget(tmp, "c03other/target.go", other)
-	if err != nil {
-		fmt.Fprintln(os.Stderr, "other target:", err)
-		os.Exit(3)
+	type frep struct {
+		hutil.Report
+		fn   string // ReportData.Func
+		file string
+	}
+	state := ruleguard.NewRunnerState(e)
+	runFile := func(t *hutil.Target, L int) (reports []frep, panicMsg string) {
+		defer func() {
+			if r := recover(); r != nil {
+				panicMsg = fmt.Sprint(r)
+			}
+		}()
+		ctx := &ruleguard.RunContext{
+			Pkg: t.Pkg, Types: t.Info, Sizes: types.SizesFor("gc", "amd64"), Fset: fset, TruncateLen: L, State: state,
+			Report: func(data *ruleguard.ReportData) {
+				r := frep{Report: hutil.Report{Message: data.Message, Line: data.RuleInfo.Line}}
+				if data.RuleInfo.Group != nil {
+					r.Group = data.RuleInfo.Group.Name
+				}
+				if data.Node == nil {
+					r.NilNode = true
+				} else {
+					p := fset.Position(data.Node.Pos())
+					r.file = p.Filename
+					r.Pos = p.Offset
+					r.End = fset.Position(data.Node.End()).Offset
+				}
+				if data.Suggestion != nil {
+					r.HasSugg = true
+					r.SuggFrom = fset.Position(data.Suggestion.From).Offset
+					r.SuggTo = fset.Position(data.Suggestion.To).Offset
+					r.Sugg = string(data.Suggestion.Replacement)
+				}
+				if data.Func != nil {
+					r.fn = data.Func.Name.Name
+				}
+				reports = append(reports, r)
+			},
+		}
+		if err := e.Run(ctx, t.File); err != nil {
+			return reports, "run error: " + err.Error()
+		}
+		return reports, ""
 	}
 	for _, L := range []int{0, 20, 1000} {
-		hutil.Run(e, t2, L, "", nil)
-		reports, pmsg := hutil.Run(e, t, L, "", nil)
+		runFile(t2, L)
+		reports, pmsg := runFile(t, L)
 		if pmsg != "" {
 			enc.Encode(engineObs{K: "engine", L: L, Panic: pmsg})
 			continue
 		}
+		// the tail file: comment rules run after the syntax rules of the file; their reports must not carry the function of
+		// the last syntax-rule report (k): nil, or -- for the comment that sits inside k -- k itself
+		tailReports, tmsg := runFile(t3, L)
+		if tmsg != "" {
+			enc.Encode(engineObs{K: "engine", L: L, Panic: tmsg})
+		}
+		nTailSyntax := 0
+		for _, r := range tailReports {
+			switch {
+			case r.Group != "gc":
+				nTailSyntax++
+				enc.Encode(engineObs{K: "engine-func", L: L, OMsg: []byte(r.Message), OGroup: r.Group, OFunc: r.fn, WFuncs: []string{"k"}, OFile: r.file, WFile: t3.Path})
+			case strings.HasPrefix(r.Message, "c:alpha"):
+				enc.Encode(engineObs{K: "engine-func", L: L, OMsg: []byte(r.Message), OGroup: r.Group, OFunc: r.fn, WFuncs: []string{""}, OFile: r.file, WFile: t3.Path})
+			default:
+				enc.Encode(engineObs{K: "engine-func", L: L, OMsg: []byte(r.Message), OGroup: r.Group, OFunc: r.fn, WFuncs: []string{"", "k"}, OFile: r.file, WFile: t3.Path})
+			}
+		}
+		if nTailSyntax != 1 || len(tailReports) != 3 {
+			enc.Encode(engineObs{K: "engine-func", L: L, Missing: true, Extra: len(tailReports)})
+		}
 		// reports by the start offset of the whole-match site they belong to
-		bySite := map[int][]hutil.Report{}
-		var commentReports []hutil.Report
+		bySite := map[int][]frep{}
+		var commentReports []frep
 		for _, r := range reports {
 			if r.Group == "gc" {
 				commentReports = append(commentReports, r)
@@ -648,6 +771,7 @@ func engineLevel(enc *json.Encoder, tmp string, rng *rand.Rand, ngroups int) {
 			r := rs[0]
 			o.Extra = len(rs) - 1
 			o.OMsg, o.OPos, o.OEnd, o.OLine, o.OGroup = []byte(r.Message), r.Pos, r.End, r.Line, r.Group
+			o.OFunc, o.WFunc, o.OFile, o.WFile = r.fn, s.fn, r.file, t.Path
 			o.OHasSugg, o.OSuggFrom, o.OSuggTo, o.OSugg = r.HasSugg, r.SuggFrom, r.SuggTo, []byte(r.Sugg)
 			if r.HasSugg && r.SuggFrom >= 0 && r.SuggFrom <= r.SuggTo && r.SuggTo <= len(src) {
 				edited := append(append(append([]byte{}, src[:r.SuggFrom]...), r.Sugg...), src[r.SuggTo:]...)
@@ -666,7 +790,8 @@ func engineLevel(enc *json.Encoder, tmp string, rng *rand.Rand, ngroups int) {
 			if strings.HasPrefix(r.Message, "c:beta") {
 				alt = 1
 			}
-			enc.Encode(engineObs{K: "engine-comment", L: L, Alt: alt, OMsg: []byte(r.Message), OLine: r.Line, WLine: cLines[alt], OGroup: r.Group, OPos: r.Pos, OEnd: r.End})
+			enc.Encode(engineObs{K: "engine-comment", L: L, Alt: alt, OMsg: []byte(r.Message), OLine: r.Line, WLine: cLines[alt], OGroup: r.Group, OPos: r.Pos, OEnd: r.End,
+				OFunc: r.fn, WFuncs: []string{""}, OFile: r.file, WFile: t.Path})
 		}
 		if len(commentReports) != 2 {
 			enc.Encode(engineObs{K: "engine-comment", L: L, Missing: true, Extra: len(commentReports)})
